@@ -8,6 +8,7 @@ Events (per test, in program order; task / location identities are small integer
   R t         run is about to be called (arguments are being resolved)     P t   run returned, result being processed
   S t loc v   Data.save() / ContinuesData.finished() returned; v: the result is visible now        D t loc   Data.delete()
   X t loc     Data.on_run_error()                            F t del       Task.force(delete_data=del)
+  Z t         Task.reset_data(): the object forgets the value it holds
 """
 import json
 import os
@@ -109,6 +110,7 @@ def _install():
     o_args = Task._get_run_arguments
     o_proc = Task._process_run_result
     o_force = Task.force
+    o_reset = Task.reset_data
     o_data = Task.data.fget
 
     def init_p(self, data):
@@ -135,6 +137,11 @@ def _install():
             _cur.add('F', _cur.tid(self), bool(delete_data))
         return o_force(self, delete_data=delete_data)
 
+    def reset_data(self):
+        if _cur is not None:
+            _cur.add('Z', _cur.tid(self))
+        return o_reset(self)
+
     def data(self):
         if _cur is None:
             return o_data(self)
@@ -153,6 +160,7 @@ def _install():
     Task._get_run_arguments = args
     Task._process_run_result = proc
     Task.force = force
+    Task.reset_data = reset_data
     Task.data = property(data)
     Task._tcverif_patched = True
 
